@@ -600,14 +600,8 @@ def _sie_past_eof(case, i):
 
 
 def load_staged_known(chk):
-    """known_findings.d/C02.json is the staging area the coordinator merges into
-    known_findings.json; honour it directly so that the check is self-contained"""
-    p = os.path.join(V, "known_findings.d", chk.pid + ".json")
-    if os.path.exists(p):
-        have = {f["key"] for f in chk.known}
-        for f in json.load(open(p)).get("findings", []):
-            if f.get("property") == chk.pid and f.get("status", "open") == "open" and f["key"] not in have:
-                chk.known.append(f)
+    """vlib.load_known reads known_findings.d/*.json itself now; kept as a no-op for C17.py"""
+    return
 
 
 def read_cfg():
@@ -716,6 +710,7 @@ def main():
     mouts, maps = model_outputs(drv, inmodel, cfg, True)
     mouts0, _ = model_outputs(drv, inmodel, cfg, False)
     model_bad = []
+    model_dev = {}
     for (case, res), mo, mo0, opmap in zip(inmodel, mouts, mouts0, maps):
         dm = compare_model(case, res, mo, opmap)
         if dm is not None:
@@ -723,6 +718,7 @@ def main():
             if case["enc"] == "bzip2" and compare_model(case, res, mo0, opmap) is None:
                 continue
             model_bad.append((case, res, dm))
+            model_dev[id(case)] = dm
     chk.cov["evaluations"] = evals
     chk.cov["distinct_nontrivial"] = len(nontriv)
     chk.cov["histories"] = len(cases)
@@ -741,7 +737,11 @@ def main():
     for case, res, bad in spec_bad.values():
         i, exp, got = bad[0]
         key = None
-        if in_model(case, strict=False) and len(res) == len(case["ops"]):
+        if id(case) in model_dev and model_dev[id(case)][0] <= i:
+            # the faithful model (with the listed defects in it) does NOT behave like this:
+            # a deviation the listed findings do not explain
+            key = "C02/unexplained/%s/%s" % (case["enc"], case["ops"][i][0])
+        if key is None and in_model(case, strict=False) and len(res) == len(case["ops"]):
             hits = attribute(drv, case, res, cfg, True, i)
             if len(hits) >= 1: key = KEYS[hits[0]]
         if key is None and i < len(case["ops"]) and case["ops"][i][0] == "r":
